@@ -48,9 +48,8 @@ theorem empty_pattern_error_split (data : Bits) (start stop : Option Int) (count
   simp [split]
 
 /-- Joining all pieces gives back the window: nothing is lost or duplicated by `split`. -/
-theorem specSplit_flatten (data pat : Bits) (s e : Nat) (al : Bool) (hse : s ≤ e) (he : e ≤ data.length) :
+theorem specSplit_flatten (data pat : Bits) (s e : Nat) (al : Bool) (hse : s ≤ e) :
     (specSplit data pat s e al none).flatten = slice data s e := by
-  have _ := he
   exact Split.specSplit_flatten_main data pat s e al hse
 
 /-! ### replace -/
@@ -106,17 +105,15 @@ theorem cut_chunks (data : Bits) (bits : Int) (start stop : Option Int) (count :
   exact Split.cut_main data bits start stop count hb hc
 
 /-- The pieces of `cut` tile the window … -/
-theorem specCut_flatten (data : Bits) (bits s e : Nat) (hb : 0 < bits) (hse : s ≤ e) (he : e ≤ data.length) :
+theorem specCut_flatten (data : Bits) (bits s e : Nat) (hb : 0 < bits) (hse : s ≤ e) :
     (specCut data bits s e none).flatten = slice data s e := by
-  have _ := he
   exact Split.specCut_flatten_main data bits s e hb hse
 
 /-- … each has `bits` bits except possibly the last, which has between 1 and `bits`. -/
-theorem specCut_lengths (data : Bits) (bits s e : Nat) (hb : 0 < bits) (hse : s ≤ e) (he : e ≤ data.length)
+theorem specCut_lengths (data : Bits) (bits s e : Nat) (hb : 0 < bits) (he : e ≤ data.length)
     (i : Nat) (hi : i < (specCut data bits s e none).length) :
     (i + 1 < (specCut data bits s e none).length → ((specCut data bits s e none)[i]).length = bits) ∧
     0 < ((specCut data bits s e none)[i]).length ∧ ((specCut data bits s e none)[i]).length ≤ bits := by
-  have _ := hse
   exact Split.specCut_lengths_main data bits s e hb he i hi
 
 /-! ### non-vacuity -/
